@@ -87,3 +87,13 @@ package tabula
 //@ func (*Extractor) Document
 //@   property C10
 //@   flags frameonly, releases
+
+// Close releases what the extractor owns and clears the ownership flags; when there is nothing (left) to close it
+// returns nil and changes nothing — so closing again is harmless.
+//@ spec func noReader(e Extractor) bool = isnil(e.reader) && isnil(e.docxReader) && isnil(e.odtReader) && isnil(e.xlsxReader) && isnil(e.pptxReader) && isnil(e.htmlReader) && isnil(e.epubReader)
+//@ func (*Extractor) Close results (err)
+//@   property C10
+//@   ensures released: old(e.ownsReader) && !noReader(old(e)) ==> !e.ownsReader && !e.readerOpened
+//@   ensures ocr_released: isnil(e.ocrClient)
+//@   ensures nothing_left_to_close: (!e.ownsReader || noReader(e))
+//@   ensures second_close_harmless: (!old(e.ownsReader) || noReader(old(e))) && isnil(old(e.ocrClient)) ==> !err && e == old(e)
